@@ -227,12 +227,14 @@ def siblings(ctx, rng, monitor, specs, late=None, **det):
 
 
 # ---- caller-owned buffers -----------------------------------------------------------------------------
-def mutable_arg(ctx, monitor, f, m, want, **det):
+def mutable_arg(ctx, monitor, f, m, want, must_accept=True, **det):
     """f(message) called with a bytearray the caller still owns: the result is the one for bytes(m), also when the very same buffer
-    is passed again, and the library leaves the buffer as it was.  A TypeError means the library refuses the type: nothing is judged."""
+    is passed again, and the library leaves the buffer as it was.  `must_accept=False` is for the few entry points that refuse a
+    bytearray on the pinned tree (a TypeError there is a refusal and judges nothing); everywhere else a bytearray is a byte string
+    like any other and an error instead of the result is a failure."""
     buf = bytearray(m)
     r1 = call(f, buf)
-    if is_exc(r1, 'TypeError') and not is_exc(want):
+    if not must_accept and is_exc(r1, 'TypeError') and not is_exc(want):
         ctx.notes['bytearray refused by the library (%s)' % monitor] += 1
         return False
     r2 = call(f, buf)
